@@ -10,6 +10,9 @@ KEYS = {
     "a": (b"a", ["a"]), "b": (b"b", ["b"]), "up": (b"\x1b[A", ["<UP>"]), "e'": (b"\xc3\xa9", ["é"]),
     "ab": (b"ab", ["a", "b"]), "up+a": (b"\x1b[Aa", ["<UP>", "a"]), "esc": (b"\x1b", ["<ESC>"]),
     "burst": (b"hello w\xc3\xb6rld \x1b[B!", [c if c != " " else "<SPACE>" for c in "hello wörld "] + ["<DOWN>", "!"]),
+    # a key cut by the 1024-byte read boundary: ESC [ at 1022-1023, A at 1024; a two-byte character at 1023-1024
+    "cut-seq": (b"y" * 1022 + b"\x1b[A" + b"z" * 5, ["y"] * 1022 + ["<UP>"] + ["z"] * 5),
+    "cut-char": (b"y" * 1023 + b"\xc3\xa9" + b"z" * 5, ["y"] * 1023 + ["\u00e9"] + ["z"] * 5),
     "big": (b"x" * 1500 + b"\xe2\x9c\x93" * 200 + b"\x1b[A" * 40, ["x"] * 1500 + ["✓"] * 200 + ["<UP>"] * 40),
 }
 
@@ -38,6 +41,8 @@ HISTORIES = [
     ("paste burst", None, [("arrive", "burst"), ("request", 1), ("request", 0)]),
     ("paste burst with keys buffered after it", None, [("arrive", "burst"), ("request", 1), ("arrive", "a"), ("request", 1), ("request", 0)]),
     ("multi-kilobyte burst", None, [("arrive", "big"), ("request", 1), ("drain",)]),
+    ("escape sequence cut by the read boundary", None, [("arrive", "cut-seq"), ("request", 1), ("drain",)]),
+    ("multi-byte character cut by the read boundary", None, [("arrive", "cut-char"), ("request", 1), ("drain",)]),
     ("burst with paste_threshold None", "none", [("arrive", "burst"), ("drain",)]),
     ("burst below a large threshold", 100, [("arrive", "burst"), ("drain",)]),
     ("threshold 1: two bytes are a paste", 1, [("arrive", "ab"), ("request", 1), ("request", 0)]),
